@@ -565,7 +565,9 @@ type c16Diff struct{ field, got, want string }
 
 func c16Compare(got, want config.Network) []c16Diff {
 	var d []c16Diff
-	add := func(f string, g, w interface{}) { d = append(d, c16Diff{f, fmt.Sprintf("%+v", g), fmt.Sprintf("%+v", w)}) }
+	add := func(f string, g, w interface{}) {
+		d = append(d, c16Diff{f, fmt.Sprintf("%+v", g), fmt.Sprintf("%+v", w)})
+	}
 	if len(got.IRC.Operators) != len(want.IRC.Operators) || (len(got.IRC.Operators) > 0 && !reflect.DeepEqual(got.IRC.Operators, want.IRC.Operators)) {
 		add("IRC.Operators", got.IRC.Operators, want.IRC.Operators)
 	}
